@@ -248,7 +248,81 @@ def check_n3(ctx) -> None:
               'the client output path is not anchored at an absolute directory')
 
 
+def check_n4(ctx) -> None:
+    """The embedded runs see the same effective input and the same defaults as the command line."""
+    repo = ctx.repo
+    # (a) runs embedded in one process must not share parameter objects: list-valued declaration arguments are fresh
+    from gxstat.registry import get_registry
+    from gxstat.srcmodel import enclosing_function
+    reg = get_registry(repo)
+    n = 0
+    for d in reg.decls:
+        if d.kind != 'listParameter':
+            continue
+        for k in ('value', 'DefaultValue'):
+            a = d.arg_nodes.get(k)
+            if a is None:
+                continue
+            n += 1
+            fresh = isinstance(a, (ast.List, ast.ListComp)) or (isinstance(a, ast.Call) and (dotted_name(a.func) or '').split('.')[-1] in ('list', 'copy', 'deepcopy'))
+            if not fresh and isinstance(a, ast.Name):
+                fn = enclosing_function(d.node)
+                defs = [st for st in ast.walk(fn) if isinstance(st, ast.Assign) and norm(st.targets[0]) == a.id] if fn is not None else []
+                fresh = bool(defs) and all(isinstance(st.value, (ast.List, ast.ListComp)) for st in defs)
+            ctx.check(fresh, 'N4', f'{d.owner}.{d.attr}/{k}-fresh-per-run', d.where,
+                      f'list parameter {d.name!r} takes {k}={norm(a)[:40]}, an object shared by every Model built in the process: after one '
+                      f'embedded run edits it in place, a later client / Monte-Carlo run of another input no longer starts from the documented '
+                      f'default, so it disagrees with the command line (fresh process) for the same input')
+    ctx.floor('N4', n, 2, 'list-valued declaration arguments')
+    # (b) the Monte-Carlo iteration input = verbatim copy of the base input + appended samples
+    wp = repo.function('geophires_monte_carlo/MC_GeoPHIRES3.py', 'work_package')
+    cp = [c for c in calls_in(wp.node) if dotted_name(c.func) == 'shutil.copyfile' and c.args and norm(c.args[0]) == 'args.Input_file']
+    ctx.check(len(cp) == 1 and norm(cp[0].args[1]) == 'tmp_input_file', 'N4', 'work_package/base-input-copied-verbatim', wp.where,
+              'the per-iteration input is not a verbatim copy of the base input (lines filtered or rewritten): the embedded run then '
+              'simulates a different effective input than the command line given base + sampled values')
+    ap = [n_ for n_ in ast.walk(wp.node) if isinstance(n_, ast.With) and any(
+        isinstance(i.context_expr, ast.Call) and dotted_name(i.context_expr.func) == 'open' and norm(i.context_expr.args[0]) == 'tmp_input_file'
+        for i in n_.items)]
+    modes = [norm(i.context_expr.args[1]) if len(i.context_expr.args) > 1 else "'r'" for w in ap for i in w.items
+             if isinstance(i.context_expr, ast.Call) and norm(i.context_expr.args[0]) == 'tmp_input_file']
+    ctx.check(modes == ["'a'"], 'N4', 'work_package/samples-appended', wp.where,
+              f'the per-iteration input file is opened with modes {modes}; sampled values must be appended after the copied base input')
+
+
+def check_n5(ctx) -> None:
+    """No report file is created before the calculations have succeeded."""
+    repo = ctx.repo
+    cg = get_callgraph(repo)
+    roots = [repo.method('Model', '__init__', 'geophires_x/Model.py'), repo.method('Model', 'read_parameters', 'geophires_x/Model.py'),
+             repo.method('Model', 'Calculate', 'geophires_x/Model.py')]
+    reach = cg.reachable(roots)
+    n = 0
+    for f in reach.values():
+        if f.name == 'PrintOutputs' or f.module.rel.startswith('src/hip_ra'):
+            continue
+        for c in calls_in(f.node):
+            if dotted_name(c.func) != 'open' or not c.args:
+                continue
+            mode = norm(c.args[1]) if len(c.args) > 1 else next((norm(k.value) for k in c.keywords if k.arg == 'mode'), "'r'")
+            if not any(m in mode for m in ('w', 'a', 'x', '+')):
+                continue
+            n += 1
+            target = norm(c.args[0])
+            is_report = any(w in target for w in ('output_file', 'sys.argv[2]', 'outputfile'))
+            ctx.check(not is_report, 'N5', f'{f.qualname}/opens-report-before-calculation', f'{f.module.rel}:{c.lineno}',
+                      f'`{norm(c)[:70]}` creates the report file while the model is still being set up / calculated: when the simulation '
+                      f'then fails, an (empty) report is left behind although the run exits non-zero',
+                      fact=f'write-mode open of {target[:40]} (not the report)')
+    ctx.ok('N5', 'pre-report-phase/no-report-file-created', 'src/', f'{len(reach)} functions reachable from Model.__init__/read_parameters/Calculate; '
+                                                                    f'{n} write-mode opens, none on the report path')
+
+
 def run(ctx) -> None:
+    ctx.rule('N4', 'embedded runs start from the same defaults and the same effective input as the command line: no list-valued '
+                   'parameter default is shared between Model instances; the Monte-Carlo iteration input is a verbatim copy of the base '
+                   'input with the sampled values appended')
+    ctx.rule('N5', 'no function reachable from Model.__init__/read_parameters/Calculate opens the report path for writing: a failing '
+                   'simulation leaves no report')
     ctx.rule('N1', 'one pipeline: only GEOPHIRESv3.main runs Model -> read_parameters -> Calculate -> PrintOutputs -> JSON, '
                    'unconditionally and in that order; CLI, client and Monte-Carlo reach it')
     ctx.rule('N2', 'python -m geophires_x ends with a non-zero status on every path where main() does not return normally '
@@ -258,5 +332,7 @@ def run(ctx) -> None:
     check_n1(ctx)
     check_n2(ctx)
     check_n3(ctx)
+    check_n4(ctx)
+    check_n5(ctx)
     ctx.undecided('byte-identical reports across entry points (depends on file-system and formatting at run time)',
                   'behaviour of the undocumented script entry `python GEOPHIRESv3.py` without argv[2]')
